@@ -980,6 +980,22 @@ class QuicConnection:
                     },
                 )
 
+            # discard duplicate packets, see RFC 9000 section 12.3
+            if (
+                packet_number in space.ack_queue
+                or packet_number < space.ack_queue_floor
+            ):
+                if self._quic_logger is not None:
+                    self._quic_logger.log_event(
+                        category="transport",
+                        event="packet_dropped",
+                        data={
+                            "trigger": "duplicate_packet",
+                            "raw": {"length": header.packet_length},
+                        },
+                    )
+                continue
+
             # raise expected packet number
             if packet_number > space.expected_packet_number:
                 space.expected_packet_number = packet_number + 1
@@ -2351,6 +2367,8 @@ class QuicConnection:
         """
         if delivery == QuicDeliveryState.ACKED:
             space.ack_queue.subtract(0, highest_acked + 1)
+            if highest_acked + 1 > space.ack_queue_floor:
+                space.ack_queue_floor = highest_acked + 1
 
     def _on_connection_limit_delivery(
         self, delivery: QuicDeliveryState, limit: Limit
